@@ -67,6 +67,9 @@ def gen_grids(rng, n_out, pattern):
         grids[1] = sorted(set(grids[1])) if rng.random() < 0.5 else grids[1]
         for o in range(2, n_out):
             grids[o] = sorted(rng.choice([a, b, c]) for _ in range(rng.randint(1, 3)))
+    if n_out > 1 and rng.random() < 0.15:
+        # an output without any measurement (anywhere but preferably not last)
+        grids[rng.choice(list(range(n_out - 1)) * 2 + [n_out - 1])] = []
     return grids
 
 
@@ -82,7 +85,7 @@ def gen_case(rng, numeric=False):
     if not numeric and rng.random() < 0.18:
         invalid = rng.choice(['negative', 'unsorted', 'shape', 'n_em'] +
                              (['n_obs_lists', 'n_time_lists'] if n_out > 1 else []))
-        o = rng.randrange(n_out)
+        o = rng.choice([k for k in range(n_out) if grids[k]])
         if invalid == 'negative':
             grids[o][0] = -rng.randint(1, 3)
         elif invalid == 'unsorted':
